@@ -4,6 +4,8 @@ CONSTANTS
   MaxFailures = 2
   DrainOnSuccess = FALSE
   SkipUnchanged = FALSE
+  RearmOnlyAfterTrigger = FALSE
   Strategy = "REPLICA"
   MaxSteps = 24
+  Periodic = FALSE
 CHECK_DEADLOCK FALSE
